@@ -73,6 +73,9 @@ type Case struct {
 	// the stage of the admin-database authority's life the case runs in (provisioners of CA "adm"
 	// only): mig | reload | update | restart ("" = whatever stage the authority is in)
 	Life string `json:"life,omitempty"`
+	// the listener of the really listening CA ("srv") the request is sent to: tls | insecure; its
+	// stages of life are run | rel1 | rel2 (number of reloads from a rewritten configuration file)
+	Lis string `json:"lis,omitempty"`
 	// the seed the composed configurations rnd0… were drawn from (set on their cases, so that a
 	// replay rebuilds the same configurations)
 	Seed uint64 `json:"sd,omitempty"`
@@ -375,6 +378,14 @@ func (w *world) serve(req *http.Request) (code int, body []byte, ctype string, c
 	return rec.Code, rec.Body.Bytes(), rec.Header().Get("Content-Type"), false
 }
 
+// listenerOf: which listener of the really listening CA a case goes to.
+func listenerOf(k *Case) string {
+	if k.Lis == "insecure" {
+		return "insecure"
+	}
+	return "tls"
+}
+
 // certTag names a certificate of a GetCACert answer the way the model does.
 func (w *world) certTag(k *Case, crt *x509.Certificate) string {
 	switch {
@@ -440,9 +451,9 @@ func cfgLine(ps *provSpec, via string) string {
 	for _, x := range ps.Caps {
 		caps = append(caps, c.X(x))
 	}
-	return fmt.Sprintf("conv via=%s secret=%s hooks=%s forcecn=%s caps=%s incroot=%s exint=%s minlen=%d enc=%d deccert=%s deckey=%s",
+	return fmt.Sprintf("conv via=%s secret=%s hooks=%s forcecn=%s caps=%s incroot=%s exint=%s minlen=%d enc=%d deccert=%s deckey=%s %s",
 		via, c.X(ps.Secret), hookField(ps, ""), c.B(ps.ForceCN), c.List(caps), c.B(ps.IncRoot), c.B(ps.ExInt), ps.MinLen, alg,
-		c.B(ps.Dec != ""), c.B(ps.Dec == "both"))
+		c.B(ps.Dec != ""), c.B(ps.Dec == "both" && ps.KeyMode != "uri"), keyFields(ps))
 }
 
 // runConv: the configuration conversions on the real code.
@@ -526,6 +537,29 @@ func (w *world) run(k *Case) (line, impl, specImpl, specWant string, ok bool) {
 			ps = cur
 		}
 	}
+	if w.ca.kind == "srv" {
+		life := k.Life
+		if life == "" {
+			life = "run"
+		}
+		if srvLife[life] < w.ca.reloaded {
+			fresh, err := newTestCA("srv", w.ca.hooks)
+			if err != nil {
+				return "", "", "", "", false
+			}
+			w.ca.close()
+			w.cas["srv"], w.ca = fresh, fresh
+		}
+		if k.Life != "" {
+			if err := w.ca.advanceSrv(life); err != nil {
+				fmt.Fprintln(os.Stderr, "reload:", err)
+				return "", "", "", "", false
+			}
+		}
+		if cur := w.ca.cur[k.Prov]; cur != nil {
+			ps = cur
+		}
+	}
 	if k.Op == "CONV" || k.Op == "LIVE" {
 		return w.runConv(k, ps)
 	}
@@ -539,11 +573,23 @@ func (w *world) run(k *Case) (line, impl, specImpl, specWant string, ok bool) {
 		f = analyze(sent, w.ca, ps)
 	}
 	js, _ := json.Marshal(k)
-	line = modelLine(f, ps, httpOK, sh, w.ca) + " case=x" + hex.EncodeToString(js)
+	lis, reloads := "mux", 0
+	if w.ca.real != nil {
+		lis, reloads = listenerOf(k), w.ca.reloaded
+	}
+	line = modelLine(f, ps, httpOK, sh, w.ca) + fmt.Sprintf(" listener=%s reloads=%d", lis, reloads) + " case=x" + hex.EncodeToString(js)
 
 	w.ca.hooks.reset()
 	before := w.ca.count()
-	code, body, ctype, crashed := w.serve(req)
+	var code int
+	var body []byte
+	var ctype string
+	var crashed bool
+	if w.ca.real != nil {
+		code, body, ctype, crashed = w.ca.doReal(listenerOf(k), req)
+	} else {
+		code, body, ctype, crashed = w.serve(req)
+	}
 	stored := w.ca.count() - before
 	hs := w.ca.hooks.snapshot()
 	calls, last, seen := hs.calls, hs.last, hs.seen
@@ -711,8 +757,8 @@ func defaults(k *Case) {
 func matrix() []*Case {
 	var out []*Case
 	for _, ps := range provSpecs {
-		if ps.CornerOnly {
-			continue
+		if ps.CornerOnly || ps.CA == "srv" || (ps.CA == "adm" && !strings.HasPrefix(ps.Name, "rnd")) {
+			continue // enumerated through the stages of their life in the corner cases
 		}
 		for _, mt := range msgTypes {
 			csrType := mt == "19" || mt == "17" || mt == "18"
@@ -881,7 +927,7 @@ func corner() []*Case {
 	// ---- the authority with the admin database, through its life: first start (migration of the
 	// ca.json provisioners), reload, update through the admin methods, restart on the same database
 	for _, life := range []string{"mig", "reload", "update", "restart"} {
-		for _, pn := range []string{"astatic", "ahdeny", "ahmn", "apdec", "aforce", "ahssh", "abogus", "abadct"} {
+		for _, pn := range []string{"astatic", "ahdeny", "ahmn", "apdec", "aforce", "ahssh", "abogus", "abadct", "apuripem"} {
 			add(Case{Prov: pn, MT: "19", Op: "LIVE", Life: life})
 			right := staticSecret
 			if life == "update" || life == "restart" {
@@ -901,6 +947,31 @@ func corner() []*Case {
 			add(Case{Prov: pn, MT: "19", Life: life, HTTP: "get", Op: "GetCACert"})
 			add(Case{Prov: pn, MT: "19", Life: life, HTTP: "get", Op: "GetCACaps"})
 			add(Case{Prov: pn, MT: "19", Life: life, HasC: true, Chal: right, Subj: 3})
+		}
+	}
+	// ---- the provisioner's key behind a KMS URI (alone, next to a left-over PEM, contradicting the certificate)
+	for _, pn := range []string{"puri", "puripem", "purimis", "euripem"} {
+		for _, mt := range []string{"19", "18"} {
+			add(Case{Prov: pn, MT: mt})
+			add(Case{Prov: pn, MT: mt, HTTP: "get", HasC: true, Chal: staticSecret})
+			add(Case{Prov: pn, MT: mt, HasC: true, Chal: staticSecret, Rcpt: "ca"})
+		}
+		add(Case{Prov: pn, MT: "19", HTTP: "get", Op: "GetCACert"})
+	}
+	// ---- the CA that really listens: both listeners, before and after each reload from the rewritten
+	// configuration file (secrets rotated, webhooks replaced)
+	for _, life := range []string{"run", "rel1", "rel2"} {
+		for _, lis := range []string{"tls", "insecure"} {
+			for _, pn := range []string{"sstatic", "shdeny", "shmn", "spdec"} {
+				for _, ch := range []string{"", staticSecret, "r0tated", hookSecret, "wrong"} {
+					add(Case{Prov: pn, MT: "19", Life: life, Lis: lis, HasC: ch != "", Chal: ch})
+					add(Case{Prov: pn, MT: "18", Life: life, Lis: lis, HTTP: "get", HasC: ch != "", Chal: ch})
+				}
+				add(Case{Prov: pn, MT: "19", Life: life, Lis: lis, HTTP: "get", Op: "GetCACert"})
+				add(Case{Prov: pn, MT: "19", Life: life, Lis: lis, HTTP: "get", Op: "GetCACaps"})
+			}
+			add(Case{Prov: "sstatic", MT: "3", Env: "degen1", Life: life, Lis: lis})
+			add(Case{Prov: "sstatic", MT: "19", Life: life, Lis: lis, Meth: "HEAD"})
 		}
 	}
 	// ---- names of the issued certificate
@@ -994,6 +1065,9 @@ func genCase(r *c.Rng, thorough bool) *Case {
 	if r.Chance(1, 10) {
 		k.Rcpt = c.Pick(r, []string{"ca", "prov", "other"})
 	}
+	if r.Chance(1, 2) {
+		k.Lis = "insecure"
+	}
 	if r.Chance(1, 8) {
 		switch r.Intn(4) {
 		case 0:
@@ -1078,7 +1152,7 @@ func Run(mode string) {
 	hooks.srv = httptest.NewServer(http.HandlerFunc(hooks.handle))
 	defer hooks.srv.Close()
 	cas := map[string]*testCA{}
-	for _, kind := range []string{"", "ec", "adm"} {
+	for _, kind := range []string{"", "ec", "adm", "srv"} {
 		ca, err := newTestCA(kind, hooks)
 		if err != nil {
 			fmt.Fprintln(os.Stderr, "CA setup:", err)
